@@ -2,8 +2,6 @@ package rules
 
 import (
 	"fmt"
-	"go/ast"
-	"go/constant"
 	"go/token"
 	"go/types"
 	"sort"
@@ -351,16 +349,21 @@ func ruleDispatchTables(c *eng.Ctx) {
 		c.Undec(R, "text.(*Extractor).RegisterFontsFromResources", token.NoPos, "anchor not found")
 	} else {
 		labels := map[string]bool{}
-		ast.Inspect(fd.Decl.Body, func(n ast.Node) bool {
-			if cc, ok := n.(*ast.CaseClause); ok {
-				for _, e := range cc.List {
-					if tv, ok := fd.Pkg.TypesInfo.Types[e]; ok && tv.Value != nil && tv.Value.Kind() == constant.String {
-						labels[constant.StringVal(tv.Value)] = true
+		// the subtype dispatch may live in a helper of the package (parseFontBySubtype); string comparisons are
+		// read from the SSA of the function and its helpers, however they are spelled
+		if fnR := p.Func("text.(*Extractor).RegisterFontsFromResources"); fnR != nil {
+			for _, h := range eng.Cluster(fnR, 2) {
+				eng.Instrs(h, true, func(in ssa.Instruction) {
+					if b, ok := in.(*ssa.BinOp); ok && b.Op == token.EQL {
+						for _, v := range []ssa.Value{b.X, b.Y} {
+							if cs, ok := eng.ConstString(v); ok {
+								labels[cs] = true
+							}
+						}
 					}
-				}
+				})
 			}
-			return true
-		})
+		}
 		var missing []string
 		for _, w := range []string{"Type1", "TrueType", "Type0"} {
 			if !labels[w] {
